@@ -14,20 +14,32 @@ from .rules_formula import Rat, rat_eval
 from .poly import Poly
 
 
+_FN = [None]        # function whose temporaries are inlined into opaque atoms
+
+
 class _Opaque(ast.NodeTransformer):
     """Replace every non-arithmetic subtree by a Name carrying its text."""
 
     def __init__(self, env):
         self.env = env
 
-    def visit_Call(self, n):
+    def _atom(self, n):
+        fn_node = _FN[0]
+        if fn_node is not None:
+            # temporaries bound once read as their defining expression, so
+            # that  t = self.f1[k]; t[x]  and  self.f1[k][x]  are one atom
+            from . import roles
+            n = roles.inline(fn_node, n)
         return ast.Name(id='@' + ast.unparse(n), ctx=ast.Load())
+
+    def visit_Call(self, n):
+        return self._atom(n)
 
     def visit_Subscript(self, n):
-        return ast.Name(id='@' + ast.unparse(n), ctx=ast.Load())
+        return self._atom(n)
 
     def visit_Attribute(self, n):
-        return ast.Name(id='@' + ast.unparse(n), ctx=ast.Load())
+        return self._atom(n)
 
 
 def sym(expr, env):
@@ -107,9 +119,13 @@ def values_at(fn_node, target, name):
             states = nxt
         return states
 
-    for e, g, reached in run(body, {}, []):
-        if reached:
-            results.append((g, e.get(name)))
+    _FN[0] = fn_node
+    try:
+        for e, g, reached in run(body, {}, []):
+            if reached:
+                results.append((g, e.get(name)))
+    finally:
+        _FN[0] = None
     return results
 
 
